@@ -31,8 +31,12 @@ def sql_num(x):
     return repr(x)
 
 
+KEYWORDS = {"key", "name", "value", "status", "date", "level", "code", "type", "user", "time", "data", "index", "order", "group",
+            "select", "from", "where", "count", "limit", "offset", "values", "table", "column", "desc", "asc", "by", "as", "on"}
+
+
 def ident(name, force_bt=False):
-    if force_bt or not name or not set(name) <= _SAFE_IDENT or name[0].isdigit():
+    if force_bt or not name or not set(name) <= _SAFE_IDENT or name[0].isdigit() or name.lower() in KEYWORDS:
         return "`" + name + "`"
     return name
 
